@@ -195,7 +195,7 @@ pub fn run(ctx: &'static Ctx) -> (&'static str, Value, Vec<&'static str>) {
         })
         .reduce(Stats::new, Stats::merge);
     let alpha: [u8; 8] = [0x00, 0x04, 0xFF, b'A', b'R', b'2', b'B', b'Z'];
-    let maxlen = if thorough { 7 } else { 6 };
+    let maxlen = if thorough { 8 } else { 6 };
     let mut jobs = Vec::new();
     for len in 3..=maxlen {
         let total = 8u64.pow(len as u32);
